@@ -303,18 +303,27 @@ def run(ctx):
         c0 = cs[0]
         conds = F.dominating_conds(vm, c0.bb)
         minresp = any(L.cmp_is(c, L.has('len(', 'responses'), 'Ge', L.ends('.config.min_peers_to_query')) for c in conds)
-        # the candidate-trust gate, in any spelling (is_some_and / match with a guard / if let + comparison): some branch edge
-        # from which the verdict call is no longer reachable is taken exactly when `trust < min_witness_trust` is known true
-        trust_ok = False
+        # the candidate-trust gate, in any spelling (is_some_and / match with a guard / if let + comparison): every path to the
+        # verdict call crosses an edge on which `trust < min_witness_trust` is known to be false — the false edge of that
+        # comparison, the false edge of `is_some_and(|t| t < min)`, or the None arm of the candidate's Option<f64> score
+        opt_params = [i for i in range(1, vm.argc + 1) if vm.local_ty(i).replace(' ', '') in ('std::option::Option<f64>', 'Option<f64>')]
+        neg_edges = set()
         for n_, e_ in vm.edge_nodes().items():
-            if c0.bb in vm.reachable_from([n_]):
-                continue
-            # a gate on the way to the verdict: the test's other outcome leads to the verdict call
-            if not any(c0.bb in vm.reachable_from([n2_]) for n2_, e2_ in vm.edges_of(e_[0]) if n2_ != n_):
-                continue
-            for _b, at in L.true_atoms(prog, vm, n_):
-                if L.atom_is_cmp(at, lambda ee: True, 'Lt', L.ends('.config.min_witness_trust')):
-                    trust_ok = True
+            cd_ = F.edge_cond(vm, e_)
+            if cd_.kind == 'cmp' and L.cmp_is(cd_, lambda ee: True, 'Ge', L.ends('.config.min_witness_trust')):
+                neg_edges.add(n_)
+            elif cd_.kind == 'bool' and not cd_.truth:
+                m_ = cd_.expr.mentions_call(r'Option::<.*>::is_some_and$')
+                if m_ is not None:
+                    for x_ in m_.walk():
+                        if x_.k == 'agg' and x_.d == 'closure' and x_.a in prog.bodies:
+                            if any(L.atom_is_cmp(ce_, lambda ee: True, 'Lt', L.ends('.config.min_witness_trust')) for _cb, ce_ in L.closure_results(prog, x_.a)):
+                                neg_edges.add(n_)
+            elif cd_.kind == 'disc' and cd_.variant_is(0) and cd_.expr is not None:
+                st_ = cd_.expr.strip()
+                if st_.k == 'param' and st_.a in opt_params:
+                    neg_edges.add(n_)
+        trust_ok = bool(neg_edges) and L.must_pass(vm, [0], neg_edges, [c0.bb])[0]
         mode = [c for c in conds if c.kind == 'bool' and c.expr.mentions_call(r'::is_attack_mode$') is not None]
         mode_ok = bool(mode) and mode[0].truth == (name == 'bft')
         ctx.ob('GATE', 'membership:%s:min-responses' % name, minresp, c0.where(), 'the %s verdict runs only with responses.len() >= min_peers_to_query: %s' % (name, minresp))
